@@ -16,7 +16,7 @@ pg.to_json_str of the hyper value before / after.
 
 import json
 
-from harness.common.framework import Prop
+from harness.common.framework import Prop, CaseTimeout
 
 # ------------------------------------------------------------------------------------------
 # Pure-Python helpers on the JSON forms (no pyglove): scan, normalisation, generators
@@ -658,12 +658,19 @@ def has_stray(spec, dna):
   return False
 
 
+def _no_timeout():
+  """Inside a broad `except`: the per-case watchdog's exception is never an implementation outcome."""
+  import sys as _sys
+  if isinstance(_sys.exc_info()[1], CaseTimeout):
+    raise _sys.exc_info()[1]
+
+
 def err_name(e):
   return type(e).__name__
 
 
 ENUM_LIMIT_QUICK = 40
-ENUM_LIMIT_THOROUGH = 400
+ENUM_LIMIT_THOROUGH = 120
 
 
 class C13(Prop):
@@ -671,7 +678,7 @@ class C13(Prop):
   props_modules = ['PgProps.C13']
   driver = 'drv_c13'
   translators = []
-  case_timeout_s = 20
+  case_timeout_s = 90
   jobs_quick = 4
   jobs_thorough = 6
   rule = ('templates generated from a typed grammar (dict / list / four pg.Object classes (two of them with identical fields) with Any, Int, '
@@ -679,7 +686,7 @@ class C13(Prop):
           'placeholders nested inside candidates of other placeholders up to depth 4; at the root or inside '
           'containers), 25 % with a `where` filter on a random subset of placeholder tags, 12 % with '
           'deliberately ambiguous candidates, 8 % with sloppily typed fields (binding-time validation); DNAs: '
-          'all of the space when it has <= 40 (quick) / 400 (thorough) points, else random valid ones, plus '
+          'all of the space when it has <= 40 (quick) / 120 (thorough) points, else random valid ones, plus '
           'mutated (mostly invalid) DNAs; values for encode: sampled from the template and perturbed. '
           'Non-trivial: the template was constructed, has at least one active placeholder and at least one '
           'valid DNA was decoded; distinct: by the whole case.')
@@ -727,7 +734,7 @@ class C13(Prop):
     return case
 
   def generate(self, rng, tier):
-    n = 260 if tier == 'quick' else 6000
+    n = 260 if tier == 'quick' else 1500
     for i in range(n):
       k = rng.below(100)
       yield self.make_case(rng.fork(), tier, sloppy=(k < 8), ambiguous=(8 <= k < 20))
@@ -801,6 +808,7 @@ class C13(Prop):
           m = pg.materialize(hv, dna, where=where)
           o['materialize_equal'] = bool(pg.eq(m, v))
         except Exception as e:     # pylint: disable=broad-except
+          _no_timeout()
           o['materialize_equal'] = False
           o['materialize_error'] = err_name(e)
         check_unchanged('materialize')
@@ -809,11 +817,13 @@ class C13(Prop):
           rec['enc'] = ['ok', dna_of_pg(d2)]
           o['roundtrip'] = rec['enc'][1] == rec['dna']     # (DNA.__eq__ raises on shape mismatch)
         except Exception as e:     # pylint: disable=broad-except
+          _no_timeout()
           rec['enc'] = ['err']
           o['enc_error'] = err_name(e)
           o['roundtrip'] = False
         check_unchanged('encode')
       except Exception as e:       # pylint: disable=broad-except
+        _no_timeout()
         rec['dec'] = ['err']
         rec['enc'] = None
         o['dec_error'] = err_name(e)
@@ -839,8 +849,10 @@ class C13(Prop):
         try:
           rec['redec'] = ['ok', of_pg(t.decode(d))]
         except Exception:          # pylint: disable=broad-except
+          _no_timeout()
           rec['redec'] = ['err']
       except Exception as e:       # pylint: disable=broad-except
+        _no_timeout()
         rec = {'enc': ['err'], 'valid': None, 'redec': None}
         obs.setdefault('value_errors', []).append(err_name(e))
       check_unchanged('encode(value)')
@@ -862,6 +874,7 @@ class C13(Prop):
             break
         obs['iter_duplicate'] = dup
       except Exception as e:       # pylint: disable=broad-except
+        _no_timeout()
         obs['iter_error'] = err_name(e)
     obs['n_all'] = n_all
     return {'construct': 'ok', 'model': model, 'obs': obs}
